@@ -225,10 +225,13 @@ theorem tie_smem_mask (b o : Nat) :
     smemAddr (b + o) = C02Cu.smemEmuAddrCDNA3 b o := by
   simp only [smemAddr, C02Cu.smemTimingAddr, C02Cu.smemEmuAddr, C02Cu.smemEmuAddrCDNA3, andnot3, and_self]
 
-/-- the first SGPR of a chunk: `regIndex + (curr - start) / 4`, as `chunkW` computes it -/
+/-- the first SGPR of a chunk: `regIndex + (curr - start) / 4`, as `chunkW` computes it (`smemDstReg` for an SGPR
+destination; for SDATA = VCC / EXEC / M0 … — outside the model's SGPR cells — it returns the following entry of the
+register list, and `handleScalarDataLoadReturn` writes through the wavefront's register accessor) -/
 theorem tie_smem_chunk_reg (reg start : Nat) (m : Nat → Nat) (c : Nat × Nat) :
     chunkW reg start m c =
-      (List.range (c.2 / 4)).map fun i => ⟨0, (0, C02Cu.smemChunkReg reg c.1 start + i), le32 m (c.1 + 4 * i)⟩ := rfl
+      (List.range (c.2 / 4)).map (fun i => ⟨0, (0, C02Cu.smemChunkReg reg c.1 start + i), le32 m (c.1 + 4 * i)⟩) ∧
+    C02Cu.smemDstNonSgpr = "return insts.Regs[data.RegType+insts.RegType(dwordOffset)]" := ⟨rfl, rfl⟩
 
 /-! ## wavefront register initialisation: the SGPR cursor -/
 
@@ -253,9 +256,9 @@ def flagOf (f : Flags) : String → Option Bool
 def valueOf (a : Args) : String → Option Nat
   | "wf.PacketAddress" => some a.packetAddr
   | "pkt.KernargAddress" => some a.kernargAddr
-  | "(pkt.GridSizeX+uint32(pkt.WorkgroupSizeX)-1)/uint32(pkt.WorkgroupSizeX)" => some (wgCount a.gx a.wx)
-  | "(pkt.GridSizeY+uint32(pkt.WorkgroupSizeY)-1)/uint32(pkt.WorkgroupSizeY)" => some (wgCount a.gy a.wy)
-  | "(pkt.GridSizeZ+uint32(pkt.WorkgroupSizeZ)-1)/uint32(pkt.WorkgroupSizeZ)" => some (wgCount a.gz a.wz)
+  | "uint32((uint64(pkt.GridSizeX)+uint64(pkt.WorkgroupSizeX)-1)/uint64(pkt.WorkgroupSizeX))" => some (wgCount a.gx a.wx)
+  | "uint32((uint64(pkt.GridSizeY)+uint64(pkt.WorkgroupSizeY)-1)/uint64(pkt.WorkgroupSizeY))" => some (wgCount a.gy a.wy)
+  | "uint32((uint64(pkt.GridSizeZ)+uint64(pkt.WorkgroupSizeZ)-1)/uint64(pkt.WorkgroupSizeZ))" => some (wgCount a.gz a.wz)
   | "uint32(wf.WG.IDX)" => some a.ix
   | "uint32(wf.WG.IDY)" => some a.iy
   | "uint32(wf.WG.IDZ)" => some a.iz
@@ -466,7 +469,7 @@ kernel goes to the L1S and L1V caches (a sub-list of the flushed groups); `proce
 dispatcher, then no cache acknowledgement outstanding, then runs the invalidation. -/
 theorem tie_flush_groups :
     C02Cu.flushGroups = ["L1ICaches", "L1SCaches", "L1VCaches", "L2Caches"] ∧
-    C02Cu.flushGuards = [("m.numCacheACK>0", "false")] ∧
+    C02Cu.flushGuards = [("m.numCacheACK>0", "false"), ("m.shootDownInProcess", "false")] ∧
     C02Cu.invalidateGroups = ["L1SCaches", "L1VCaches"] ∧
     C02Cu.invalidateGroups.all (fun g => C02Cu.flushGroups.contains g) = true ∧
     C02Cu.invalidateGuards = [("m.l1InvalidatedFor==req", "m.l1InvalidatedFor=nil;return false"), ("m.numCacheACK==0", "false")] ∧
